@@ -166,6 +166,14 @@ def _text(ctx, case, nc):
         ctx.count("runs_in_undo_mode")
     fa = nc.af.FileAnonymizer(anon_pwd=False, anon_ip=False, salt=salt, as_numbers=list(nums), **fkw)
     lns = case.get("lines") or [gen_line(rng, nums) for _ in range(rng.randint(2, 10))]
+    if not case.get("lines") and rng.random() < 0.04:
+        # an as-path dump / a community list on one line: hundreds of occurrences
+        big = []
+        for i in range(rng.randint(260, 700)):
+            if i:
+                big.append([rng.choice([" ", " ", "_", ":", ","]), "d"])
+            big.append([rng.choice(nums), "asn"])
+        lns.append(big)
     for segs in lns:
         line = "".join(s[0] for s in segs)
         exp = expected(line, set(nums), ref)
